@@ -56,6 +56,17 @@ Section Statements.
     /\ forall extra, non_trivial eqb ancb (length c + extra) c = non_trivial eqb ancb (length c) c.
   Proof. exact (nt_terminates eqb ancb eqb_spec). Qed.
 
+  (** What "no pair is left" means: for any two adds of the conflict that are equal or related
+      by ancestry, no remove is absent or an ancestor of the one that would be dropped
+      ([pick] names it: the ancestor, or the first of two equal adds). *)
+  Theorem C12_stuck_spec : forall (c : list T),
+    find_pair_to_remove eqb ancb c = None <->
+    forall i1 i2 a1 a2 ai aid,
+      (i1 < i2)%nat -> nth_error (adds c) i1 = Some a1 -> nth_error (adds c) i2 = Some a2 ->
+      pick eqb ancb i1 a1 i2 a2 = Some (ai, aid) ->
+      forall r, In r (removes c) -> remove_ok ancb aid r = false.
+  Proof. exact (find_pair_none_spec eqb ancb). Qed.
+
   (** Otherwise a conflict, and no side silently dropped. Every result is justified in one of
       five ways: the agree rule; an unchanged side (twice); cancellation alone leaves one value
       ([Resolves], the rule of C02, on the flattened input); or the result differs from the
